@@ -22,6 +22,8 @@ import (
 	"github.com/dolthub/dolt/go/libraries/doltcore/schema"
 	"github.com/dolthub/dolt/go/libraries/doltcore/sqle/dsess"
 	"github.com/dolthub/dolt/go/store/hash"
+	"github.com/dolthub/dolt/go/store/val"
+	"github.com/dolthub/go-mysql-server/sql"
 	"github.com/dolthub/dolt/go/store/prolly/tree"
 	"github.com/dolthub/dolt/go/zzverif/vh"
 	"github.com/dolthub/dolt/go/zzverif/vsql"
@@ -346,6 +348,13 @@ type sxStoredIndex struct {
 	Keyless bool
 }
 
+// sxStoredPrimary is the clustered map of a keyless table decoded to strings: one element per
+// stored entry (a distinct row hash) with its column values by name and its cardinality.
+type sxStoredPrimary struct {
+	Rows  []map[string]string
+	Cards []int
+}
+
 var errSxUnsupported = fmt.Errorf("unsupported field type")
 
 func sxFmtField(v interface{}) (string, error) {
@@ -360,6 +369,77 @@ func sxFmtField(v interface{}) (string, error) {
 		return string(x), nil
 	}
 	return "", errSxUnsupported
+}
+
+// readKeylessPrimary decodes the clustered map of keyless table tbl in the given root
+// (nil when the table is missing or has a primary key).
+func (p *sxInProc) readKeylessPrimary(db string, spec sxRootSpec, tbl string) (*sxStoredPrimary, error) {
+	root, ctx, err := p.root(db, spec)
+	if err != nil {
+		return nil, err
+	}
+	t, ok, err := root.GetTable(ctx, doltdb.TableName{Name: tbl})
+	if err != nil || !ok {
+		return nil, err
+	}
+	sch, err := t.GetSchema(ctx)
+	if err != nil {
+		return nil, err
+	}
+	if !schema.IsKeyless(sch) {
+		return nil, nil
+	}
+	idx, err := t.GetRowData(ctx)
+	if err != nil {
+		return nil, err
+	}
+	m := durable.MapFromIndex(idx)
+	vd := m.ValDesc()
+	type colPos struct {
+		name string
+		pos  int
+	}
+	var cols []colPos
+	for _, c := range sch.GetNonPKCols().GetColumns() {
+		if c.Virtual {
+			continue
+		}
+		si, ok := sch.GetNonPKCols().StoredIndexByTag(c.Tag)
+		if !ok {
+			return nil, fmt.Errorf("column %s has no stored index", c.Name)
+		}
+		cols = append(cols, colPos{c.Name, si + 1})
+	}
+	out := &sxStoredPrimary{}
+	it, err := m.IterAll(ctx)
+	if err != nil {
+		return nil, err
+	}
+	for {
+		_, v, err := it.Next(ctx)
+		if err == io.EOF {
+			break
+		}
+		if err != nil {
+			return nil, err
+		}
+		row := map[string]string{}
+		for _, c := range cols {
+			f, err := tree.GetField(ctx, vd, c.pos, v, m.NodeStore())
+			if err != nil {
+				return nil, err
+			}
+			if f, err = sql.UnwrapAny(ctx, f); err != nil {
+				return nil, err
+			}
+			if row[c.name], err = sxFmtField(f); err != nil {
+				return nil, err
+			}
+		}
+		out.Rows = append(out.Rows, row)
+		out.Cards = append(out.Cards, int(val.ReadKeylessCardinality(v)))
+	}
+	return out, nil
 }
 
 // readIndexes decodes every secondary index of table tbl in the given root.
